@@ -564,8 +564,6 @@ theorem C16_parse_error_group (file : String) (code : Option Text) (tt ts : Text
   | some l =>
     refine ⟨l, rfl, ?_⟩
     simp only [locOrDefault] at hs
-    split at hs
-    · simp at hs
-    · exact hs
+    split at hs <;> simp_all
 
 end Emboss.Pipeline
